@@ -177,23 +177,28 @@ func c19Check(env *core.Env, cc core.Case) core.Verdict {
 	for _, bin := range bins {
 		for _, in := range invs {
 			args := append([]string{"-d", dirArg}, in.args...)
-			r := sut.Run(sut.Cmd{Bin: bin, Args: args, Stdin: in.stdin, Dir: root, Timeout: 20 * time.Second})
+			// the build with the race detector runs an order of magnitude slower: its limits are scaled accordingly
+			first, confirm, cpuLimit := 20*time.Second, 120*time.Second, 10*time.Second
+			if bin != env.Bin {
+				first, confirm, cpuLimit = 120*time.Second, 600*time.Second, 150*time.Second
+			}
+			r := sut.Run(sut.Cmd{Bin: bin, Args: args, Stdin: in.stdin, Dir: root, Timeout: first})
 			v.Counts["executions"]++
 			if r.Class() == sut.ClassTimeout {
 				if atomic.LoadInt32(&c19Hangs) >= 3 {
 					atomic.AddInt32(&c19Reported, 1)
-					x := core.Viol("hang", "%v does not terminate within 20 s (three hangs were already confirmed in this run)\ninput=%s", in.args, core.Q(c.Input))
+					x := core.Viol("hang", "%v does not terminate within the watchdog (three hangs were already confirmed in this run)\ninput=%s", in.args, core.Q(c.Input))
 					x.SelfConfirmed = true
 					return x
 				}
 				// run it once more with a generous limit before calling it a hang; the verdict uses the CPU time the
 				// process consumed (normal inputs need a few hundredths of a second), which does not depend on machine load
-				r = sut.Run(sut.Cmd{Bin: bin, Args: args, Stdin: in.stdin, Dir: root, Timeout: 120 * time.Second})
-				if r.Class() == sut.ClassTimeout || r.CPU > 10*time.Second {
+				r = sut.Run(sut.Cmd{Bin: bin, Args: args, Stdin: in.stdin, Dir: root, Timeout: confirm})
+				if r.Class() == sut.ClassTimeout || r.CPU > cpuLimit {
 					atomic.AddInt32(&c19Hangs, 1)
 					atomic.AddInt32(&c19Reported, 1)
-					x := core.Viol("hang", "%v does not terminate promptly: watchdog hit after 20 s, and the confirming run %s after consuming %.0f s of CPU time\ninput=%s\nstderr-tail=%s", in.args,
-						map[bool]string{true: "was killed after 120 s", false: "ended"}[r.Class() == sut.ClassTimeout], r.CPU.Seconds(), core.Q(c.Input), core.Q(tail(r.Stderr, 12)))
+					x := core.Viol("hang", "%v does not terminate promptly: watchdog hit, and the confirming run %s after consuming %.0f s of CPU time\ninput=%s\nstderr-tail=%s", in.args,
+						map[bool]string{true: "was killed by the longer watchdog", false: "ended"}[r.Class() == sut.ClassTimeout], r.CPU.Seconds(), core.Q(c.Input), core.Q(tail(r.Stderr, 12)))
 					x.SelfConfirmed = true
 					return x
 				}
